@@ -7,19 +7,19 @@ BUILT = {
  "C19": ("exploration", "reference conversion (encoding/csv configured like the importer + independent type conversion) vs the real makeConfig/colDataTypes/doBatchInsert driven in-package (go test -overlay): event accounting in arrival order and stored rows read back; plus the csvimport binary end to end (flags, stdin, stdout reports, exit status) between two engine processes",
          "Held on the streams explored: all four destination types, mappings, separators, NULL markers, short records, bad quoting, unparsable / out-of-range numbers, oversized rows.",
          "what a record is, is decided by encoding/csv; canonical number spellings only"),
- "C20": ("exploration", "typed vs submitted statements compared as token sequences (real SQL tokenizer) on the real Terminal.ReadLine driven in-package (go test -overlay); plus whole console sessions end to end: the console's runTerminal on a pseudo-terminal with a real Session, effects read back from the database",
+ "C20": ("exploration", "typed vs submitted statements compared as token sequences (real SQL tokenizer) on the real Terminal.ReadLine driven in-package (go test -overlay); plus whole console sessions end to end: the console's runTerminal on a pseudo-terminal with a real Session, effects read back from the database; streams include bracketed pastes, false starts killed with Ctrl-A Ctrl-K and typing errors put right in mid-line",
          "Held on the keystroke streams explored: 1-8 statements, line breaks at token boundaries, several statements per line, literals with semicolons / other quotes / spaces, three delivery modes incl. chunks that split UTF-8 sequences.",
          "no line break inside a literal; lines under the terminal's 4096-rune buffer"),
- "C13": ("exploration", "(a) Go race detector on a -race build with the real flush timer and sleep-only handlers that park statements across > 2 ticks; (b) offline checker over a hook event log (goroutine ids): no foreign page/header write inside a statement's change window",
+ "C13": ("exploration", "(a) Go race detector on a -race build with the real flush timer and sleep-only handlers that park statements across > 2 ticks; (b) offline checker over a hook event log (goroutine ids): no foreign page/header write inside a statement's change window; one pass per build keeps a store open for over 35 s",
          "Held on the passes explored: every statement kind x placement (park at 2nd page change, inside the log append, at a cache miss; idle gaps), fresh and reloaded pages. Happens-before detection does not depend on the observed timing.",
          "parks span > 2 ticks; race-build handlers add no synchronisation; races outside the five statement kinds (e.g. USE opening a store) are recorded, not judged"),
- "C17": ("exploration", "model of databases vs the real session under the real 100 ms flush timer: reads after every successful USE, and recovery + read of a copy of the data directory at every restart boundary (clean / os.Exit / SIGKILL)",
+ "C17": ("exploration", "model of databases vs the real session under the real 100 ms flush timer: reads after every successful USE, and recovery + read of a copy of the data directory at every restart boundary (clean / os.Exit / SIGKILL / SIGKILL right after an acknowledged statement)",
          "Held on the scripts explored (USE other/same/missing/other-case, CREATE DATABASE new/existing, SHOW, DDL/DML, pauses, restarts over 2-4 databases).",
          "names compared case-insensitively; abrupt restarts follow a pause of > 2 ticks"),
  "C09": ("exploration", "recover() + logical step budgets (scanner characters, token-list reads, enforced from hooks) + allocation bound around the session's tokenise+parse path, in child processes",
          "Exhaustive over all token sequences up to length 2 (quick) / 3 (thorough) of the full vocabulary and longer ones over a reduced vocabulary; all byte and token prefixes of thousands of valid statements; mutations; quote and numeric pathology; random bytes; 10^5-deep nesting.",
          "budgets are far above what valid input uses (observed ratio reported); a wall-clock timeout alone is inconclusive"),
- "C10": ("exploration", "generated statement tree vs the neutral form of the parsed statement (AND/OR chains flattened), four renderings per tree",
+ "C10": ("exploration", "generated statement tree vs the neutral form of the parsed statement (AND/OR chains flattened), four renderings per tree; plus a metamorphic monitor: the same text parsed after two different predecessors must parse the same",
          "Held on the trees explored over the whole grammar; every AND/OR shape up to 5 predicates enumerated; every list kind with >= 3 elements.",
          "literals without quote/backslash/newline; positions not compared"),
  "C18": ("exploration", "recover() around Session.ExecQuery in child processes, over type-confused statement families and four session states; plus sessions against the real 100 ms flush goroutine with statements held open by sleep-only hook handlers, a non-returning statement confirmed by a second run with a 120 s allowance",
@@ -28,10 +28,10 @@ BUILT = {
  "C05": ("exploration", "independent reference SQL evaluator over the model vs the real parse path + EvaluateSelect on a real database (ORDER BY ties and LIMIT windows judged up to the freedom the property leaves)",
          "Held on the queries explored: thousands of generated single-table queries per run over all clause combinations, all six operators on all types, and every AND/OR shape up to 4 predicates on a truth table.",
          "non-NULL operands; names of unnamed expressions not judged"),
- "C06": ("exploration", "join-by-definition reference evaluator (explicit NULL padding) vs the real engine, multiset comparison; ambiguity probes must be rejected",
+ "C06": ("exploration", "join-by-definition reference evaluator (explicit NULL padding) vs the real engine, multiset comparison; ambiguity probes must be rejected; plus sessions asking joins over the catalog tables after every statement, judged against the model of what was created",
          "Held on the join chains explored: all nine two-join type sequences, self-joins, empty sides, duplicate keys.",
          "non-NULL join keys"),
- "C07": ("exploration", "exact-sum reference aggregates vs the real engine as multisets, on three insertion orders of the same rows (order-independence monitor)",
+ "C07": ("exploration", "exact-sum reference aggregates vs the real engine as multisets, on three insertion orders of the same rows (order-independence monitor); plus sessions that ask the same bare aggregates after every statement (user and catalog tables), judged against the rows SELECT * returns at that moment",
          "Held except for one recorded known finding (AVG re-rounds a running average); grouping by 0-3 columns referenced by name/qualifier/alias at any select-list position, collision-bait values, on top of WHERE and JOIN.",
          "AVG over integer columns, NULLs only under COUNT(col); .5 averages accept both neighbours"),
  "C12": ("exploration", "encode/decode, double round trip and write/cold-read round trip of nodes built with the engine's own primitives, logical dumps compared",
@@ -46,7 +46,7 @@ BUILT = {
  "C16": ("exploration", "differential run: same workload at cache capacities just above the measured per-statement dirty set vs the default capacity; outcomes, SELECT results with row ids and final contents must be identical",
          "Held on the workloads and capacities explored; the property's precondition (dirty set fits the cache) is guaranteed by construction.",
          "the default-capacity run is the reference"),
- "C14": ("exploration", "before/after/restart/crash snapshots around failing statements (every cause, invalid row at every position), compared with the unchanged model; later valid statements checked",
+ "C14": ("exploration", "before/after/restart/crash snapshots around failing statements (every cause, invalid row at every position), compared with the unchanged model; later valid statements checked in the same session (after a leaf split) and after a restart",
          "Held on the failing statements explored: every cause the property names, k = 1..n for n-row INSERTs, k-th overflowing row for UPDATEs, on states with splits and tombstones.",
          "which error value is returned is not judged; ids may have gaps"),
  "C04": ("fault_enumeration", "crash image before every page write and the header write of every flush (timer-equivalent, CREATE TABLE, close, recovery's own), recovered in fresh processes, compared with the model; second-level crashes inside recovery's flush; plus crash points at system-call level, independent of the hooks: the history re-run under strace, SIGKILL injected on entry to the n-th write call on the data file",
